@@ -112,11 +112,20 @@ class AstToSqlAlchemyOrmVisitor(common._CommonVisitors, visitor.NodeVisitor):
         :meta private:
         """
         try:
-            prop_inspect = inspect(elem).property
+            attr_inspect = inspect(elem)
+            prop_inspect = attr_inspect.property
             if isinstance(prop_inspect, RelationshipProperty):
                 foreign_key = prop_inspect._calculated_foreign_keys
                 if len(foreign_key) == 1:
-                    return next(iter(foreign_key))
+                    column = next(iter(foreign_key))
+                    try:
+                        # Reference the column through the entity the relationship
+                        # was taken from, which may be an `aliased()` one:
+                        parent = attr_inspect.parent
+                        key = parent.mapper.get_property_by_column(column).key
+                        return getattr(parent.entity, key)
+                    except Exception:
+                        return column
         except Exception:
             pass
 
